@@ -117,6 +117,12 @@ pub fn blocks(thorough: bool) -> Vec<Block> {
         b.push(Block::new(u_many(150), k1.clone(), "Lambda<=1 (no u,c)"));
         b.push(Block::new(u_kind_triples(), k2.clone(), "Lambda<=2 (no u,c)"));
     }
+    if thorough {
+        // the thorough space is a superset of the quick one: every quick block first, then the deeper ones
+        let mut all = blocks(false);
+        all.extend(b);
+        return all;
+    }
     b
 }
 
